@@ -631,6 +631,16 @@ qb_rb_chunk_reclaim(struct qb_ringbuffer_s * rb)
 	if (rb == NULL) {
 		return;
 	}
+	/*
+	 * The count of the notifier is the number of chunks a reader has not
+	 * taken yet: whoever takes one out takes one off the count (a peek
+	 * leaves both as they were).  A chunk whose count has not arrived
+	 * yet is not there to be taken.
+	 */
+	if (rb->notifier.timedwait_fn &&
+	    rb->notifier.timedwait_fn(rb->notifier.instance, 0) < 0) {
+		return;
+	}
 	_rb_chunk_reclaim(rb);
 }
 
@@ -671,6 +681,10 @@ qb_rb_chunk_peek(struct qb_ringbuffer_s * rb, void **data_out, int32_t timeout)
 	}
 	chunk_size = QB_RB_CHUNK_SIZE_GET(rb, read_pt);
 	*data_out = QB_RB_CHUNK_DATA_GET(rb, read_pt);
+	/* looked at, not taken: it still counts (see qb_rb_chunk_reclaim()) */
+	if (rb->notifier.post_fn) {
+		(void)rb->notifier.post_fn(rb->notifier.instance, chunk_size);
+	}
 	return chunk_size;
 }
 
